@@ -15,6 +15,7 @@ mod m_split;
 mod m_parseint;
 mod m_cstr;
 mod m_ownership;
+mod m_mem;
 
 use common::*;
 use rand::{rngs::SmallRng, SeedableRng};
@@ -35,6 +36,7 @@ fn replay_line(s: &mut Summary, v: &V) {
         "ParseInt" => m_parseint::replay(s, v),
         "CStr" => m_cstr::replay(s, v),
         "Ownership" => m_ownership::replay(s, v),
+        "Mem" => m_mem::replay(s, v),
         m => panic!("kh: unknown module {m}"),
     }
 }
